@@ -29,9 +29,9 @@ CHECKS.update({
    text="notifications_well_nested is proved for every chart, both engines and every sequence of step/receive/cancel/reset/destroy operations of any length: balance, nesting, exit-transition-entry phases, content only inside brackets, one stable-configuration notice per macrostep. 'Every exited/entered state, transition, element and event is reported exactly once and in execution order' holds in the model by construction (the notifications are how the model executes) and reaches the code through the correspondence: the compiled engines' notification traces must equal the model's on every generated chart and history (a difference is reported as a broken tie) and are themselves run through the automaton.",
    design_ref="6 / C13", note=ENGINE_NOTE),
 })
-CHECKS["C15"] = dict(category="exploration",
-   technique="Lean model of toJSON/fromJSON/jsmn with checked indices + theorems (escape/unescape inverse for all byte strings, string-scan boundary); differential on plain and ASan+UBSan builds",
-   text="Proved in Lean for every byte string: unescape(escape s) = s and the tokenizer's string scan ends at the printer's closing quote. The full round-trip theorem and 'fromJSON never reads out of bounds' are stated on the model but not yet proved; they are currently decided by the differential suites (exhaustive escape tables, random Data trees, truncations/mutations/random bytes on sanitizer builds), hence 'exploration'.",
+CHECKS["C15"] = dict(category="proof",
+   technique="Lean model of toJSON/fromJSON/jsmn with checked indices + theorems (no out-of-bounds access or empty-stack pop for any input; escape/unescape inverse for all byte strings; string-scan boundary); the model is tied to the compiled code by differential runs on plain and ASan+UBSan builds",
+   text="Proved in Lean for every byte string: fromJSON never reaches an out-of-bounds read of the token array or a pop of an empty stack (fromJSON_no_oob: parser invariant by induction over jsmn's loop, stack invariant of the tree builder by induction over the token walk); unescape(escape s) = s; the tokenizer's string scan ends at the printer's closing quote. Partial: the whole-tree round trip fromJSON(toJSON d) = d is proved only at the string layer; for trees it is decided by the differential suites (exhaustive escape tables, random Data trees, event round trips), with the recorded findings toplevel-atom and nul-byte. That the C++ is the modelled function rests on the fromjson-bytes suite (truncations/mutations/random bytes, plain and sanitizer builds: a real out-of-bounds access aborts there).",
    design_ref="6 / C15", note="Trusted: hand model Model.Json (jsmn non-strict, token budget loop, tree builder), tied to the compiled code by the json suites; Data.node/binary outside the model.")
 CHECKS["C17"] = dict(category="proof",
    technique="Lean theorems over tables regenerated on every run by probing the compiled parser and evaluator (translator), plus differential evaluation of generated expressions",
